@@ -236,22 +236,34 @@ impl SmartCalcConfig {
                 });
             }
 
+            /* A month can have more than one name (subat, şubat), all of them must be readable */
+            let mut month_names: Vec<Vec<String>> = Vec::with_capacity(12);
+            for _ in 0..12 {
+                month_names.push(Vec::new());
+            }
+
             for (month_name, month_number) in &language_constant.long_months {
                 match month_list.get_mut((*month_number - 1) as usize) {
-                    Some(month_object) => month_object.long = month_name.to_string(),
+                    Some(month_object) => {
+                        month_object.long = month_name.to_string();
+                        month_names[(*month_number - 1) as usize].push(month_name.to_string());
+                    },
                     None => log::warn!("Month not fetched. {}", month_number)
                 };
             }
 
             for (month_name, month_number) in &language_constant.short_months {
                 match month_list.get_mut((*month_number - 1) as usize) {
-                    Some(month_object) => month_object.short = month_name.to_string(),
+                    Some(month_object) => {
+                        month_object.short = month_name.to_string();
+                        month_names[(*month_number - 1) as usize].push(month_name.to_string());
+                    },
                     None => log::warn!("Month not fetched. {}", month_number)
                 };
             }
 
-            for month in month_list.iter() {
-                let pattern = &format!(r"\b{}\b|\b{}\b", month.long, month.short);
+            for (month, names) in month_list.iter().zip(month_names.iter()) {
+                let pattern = &names.iter().map(|name| format!(r"\b{}\b", name)).collect::<Vec<_>>().join("|");
                 match Regex::new(pattern) {
                     Ok(re) => language_group.push((re, month.clone())),
                     Err(error) => log::error!("Month parser error ({}) {}", month.long, error)
